@@ -267,6 +267,9 @@ func (fr *frame) deepEqTyped(t types.Type, x, y value, depth int) value {
 		case ut.Info()&types.IsFloat != 0:
 			a, _, _ := scalarTerm(x)
 			b, _, _ := scalarTerm(y)
+			if SameTerm(a, b) {
+				return true
+			}
 			return mkScalar(Or(FpEq(a, b), And(FpIsNaN(a), FpIsNaN(b))), types.Bool)
 		case ut.Info()&types.IsString != 0:
 			return fr.strOp(func(a, b value) value { return strEq(a, b) }, x, y)
